@@ -39,6 +39,42 @@ o P1 240105#H2 plain todo w0
 }
 
 
+def _alloc_files():
+    """45 notes written without a ZID: the index gives them 45 consecutive ZIDs of one day
+    (well past the first characters the allocator has to skip)."""
+    kinds = ["-", "o P1", "x", "~", "<", "> P4", "o"]
+    lines = ["# Journal page #jr", ""]
+    for i in range(45):
+        lines.append(f"{kinds[i % len(kinds)]} entry number{i} about +topic{i % 3} w0")
+        if i % 6 == 0:
+            lines.append(f"  * detail:: value {i}")
+            lines.append(f"  second line of entry {i}")
+    return {"j.zo": "\n".join(lines) + "\n"}
+
+
+def _alloc_index():
+    """ZIDs assigned by the real `db create`; the reference notes are the page as
+    `db create` rewrote it, recompiled."""
+    from mc.core import dirstate as D
+    from mc.core import zdir as Z
+
+    zd = Z.make_zdir(_alloc_files(), "c12a")
+    r = Z.db_create(zd, DAY)
+    if not Z.cli_ok(r):
+        raise H.HarnessError("c12 alloc setup: create failed " + r.err[-300:])
+    H.freeze(DAY)
+    notes = []
+    for rel, pg in D.compiled_pages(zd).items():
+        notes.extend(pg["notes"])
+    ix = IX.Index.__new__(IX.Index)
+    ix.day = DAY
+    ix.zdir = zd
+    ix.raw = {"notes": notes, "pages": {}, "problems": []}
+    ix.universe = Q.Universe(notes)
+    ix._sess = {}
+    return ix
+
+
 def _hist_index():
     """An index that went through a real history: created on day 0, two notes
     edited and the page reindexed on day 1.  The reference for what the emitted
@@ -77,6 +113,8 @@ def _index(name):
     ix = _IX.get(name)
     if ix is None and name == "HIST":
         ix = _IX[name] = _hist_index()
+    if ix is None and name == "ALLOC":
+        ix = _IX[name] = _alloc_index()
     if ix is None:
         files = dict(C.K1) if name == "K1" else dict(C.K4)
         ix = _IX[name] = IX.Index(files, DAY, tag="c12p")
@@ -91,6 +129,9 @@ def cases(ctx):
     for o in ([None] + [[k] for k in ORDER_KEYS]):
         out.append(["pipe", "HIST", 0, o, "direct"])
     out.append(["pipe", "HIST", 0, ["alpha"], "zoq"])
+    for o in (None, ["alpha"], ["type"]):
+        out.append(["pipe", "ALLOC", 0, o, "direct"])
+    out.append(["pipe", "ALLOC", 0, None, "zoq"])
     for name in ("K1", "K4"):
         for fi in range(len(FILTERS)):
             for o in orders:
